@@ -66,17 +66,29 @@ func corpus(c *Ctx, max int) []srcFile {
 	}
 	if max > 0 && len(paths) > max {
 		r := rand.New(rand.NewSource(c.Seed))
-		// always keep the template and the small hand-written files, and a seeded sample of the rest
-		var keep, rest []string
+		// always keep the template, the small hand-written files (at most half of a small sample), and a
+		// seeded sample of the rest
+		var keep, extra, rest []string
 		for _, p := range paths {
-			if strings.Contains(p, "/corpus/template/") || strings.Contains(p, "/corpus/extra/") {
+			switch {
+			case strings.Contains(p, "/corpus/template/"):
 				keep = append(keep, p)
-			} else {
+			case strings.Contains(p, "/corpus/extra/"):
+				extra = append(extra, p)
+			default:
 				rest = append(rest, p)
 			}
 		}
+		if len(extra) > max/2 {
+			r.Shuffle(len(extra), func(i, j int) { extra[i], extra[j] = extra[j], extra[i] })
+			extra = extra[:max/2]
+		}
+		keep = append(keep, extra...)
 		r.Shuffle(len(rest), func(i, j int) { rest[i], rest[j] = rest[j], rest[i] })
-		paths = append(keep, rest[:max-len(keep)]...)
+		if n := max - len(keep); n > 0 && n <= len(rest) {
+			keep = append(keep, rest[:n]...)
+		}
+		paths = keep
 		sort.Strings(paths)
 	}
 	var out []srcFile
